@@ -22,9 +22,15 @@ def run(ctx, proofs):
                         "PROVED for loop-free graphs (C07_loop_free_graph_claims_true; decidable hypotheses djust_cfg, SsaCheck.infos_ok, DegGraph.deg_graph_ok, DegGraph.loop_free_ok, evaluated per "
                         "graph: dominator_table_hypotheses.graphs_covered_by_loop_free_theorem; plus `same edge lists as the lifted skeleton`, compared by C13's engine, not here): "
                         "families of concrete runs whose paths DIFFER are represented, `picks_decided` derived.",
-                        "OPEN diverging runs in graphs WITH loops (same sequence of loop-header entries, different arms inside): not proved.",
-                        "OPEN signal-dependent trip counts: outside the lock-step relation (no store represents the family); soundness is argued (header phis get no claim or upper "
-                        "end NonQuadratic), not proved. The oracle judges such programs per iteration context: inside such a loop a claim is compared on the runs that are in the "
+                        "PROVED under a family assumption (proof round 4, C07_loops_runs_represented / C07_loops_runs_claims_true): diverging runs in graphs WITH loops whose ascending "
+                        "segments start at the same blocks (same header entries, different arms inside) are represented on the cells that are still current at the end of the runs; "
+                        "decidable graph hypotheses SsaCheck.infos_ok, DegGraph.graph_consistent, DegLoops.loops_ok (evaluated per graph by this check, conjunct by conjunct, through the `deggraph` command "
+                        "of the ir driver: dominator_table_hypotheses.graphs_covered_by_loops_theorem; an unmet one is a violation naming it - except update_bases_fresh, which as defined "
+                        "fails on every graph that updates one array element-wise twice: those graphs are counted as OUTSIDE the theorem, about 6 % of the explored graphs). OPEN: deriving the assumption `picks_decided_sched` from the graph as the loop-free theorem does "
+                        "(Proofs.DegRunLoops.C07_loops_picks_decided_full_statement); claims on mid-block expressions whose operands are re-assigned later in the same block.",
+                        "OPEN signal-dependent trip counts: outside the lock-step relation (no store represents the family; full statement "
+                        "Proofs.DegRunLoops.C07_valuation_dependent_trip_counts_full_statement). PROVED part (C07_varying_decider_phi_no_low_claim): a phi of a join with a deciding condition "
+                        "that varies with the valuation gets no claim or upper end NonQuadratic; that everything computed from it inherits this for the concrete runs is not proved. The oracle judges such programs per iteration context: inside such a loop a claim is compared on the runs that are in the "
                         "same iteration (degree_oracle.claims_judged_on_signal_dependent_paths; contexts reached by fewer than d + 2 of the five runs are not judged: "
                         "degree_oracle.discarded_signal_dependent_paths); behind the loop all five runs are compared again.",
                         "OPEN the lifted-skeleton edge hypothesis for the REAL graph: C07_chain_split_is_named_by_decides composes the mirrors (lifting, SSA, propagation); that "
